@@ -210,6 +210,10 @@ def _n_levels(cfg):
 
 @st.composite
 def _history_case(draw, tier, eq):
+  # the driver seeds every sub-check identically: burn a class-dependent number of draws so that the four history
+  # sub-checks do not walk through the same grids / integrators / histories
+  for _ in range(3 * (PE_CLASSES + ('sw',)).index(eq)):
+    draw(st.integers(0, 7))
   cfg = draw(_config(tier, eq))
   g = cfg['grid']
   integ = draw(st.sampled_from(INTEGRATORS + (LEAPFROG,)))
@@ -223,7 +227,7 @@ def _history_case(draw, tier, eq):
 @st.composite
 def _tendency_case(draw, tier):
   eq = draw(st.sampled_from(PE_CLASSES + ('sw',)))
-  cfg = draw(_config('thorough' if tier == 'thorough' else 'quick', eq))
+  cfg = draw(_config(tier, eq))
   g = cfg['grid']
   n_in = 2 if tier == 'quick' else 4
   inits = [draw(_init(_fields(cfg), _n_levels(cfg), g['M'], g['L'])) for _ in range(n_in)]
